@@ -420,12 +420,20 @@ func (v *xmlValue) UnmarshalXML(d *ixml.Decoder, start ixml.StartElement) error 
 	// buffer. This forces the encoder to redeclare any used namespaces.
 	var b bytes.Buffer
 	e := ixml.NewEncoder(&b)
+	depth := 0
 	for {
 		t, err := next(d)
 		if err != nil {
 			return err
 		}
-		if e, ok := t.(ixml.EndElement); ok && e.Name == start.Name {
+		switch t.(type) {
+		case ixml.StartElement:
+			depth++
+		case ixml.EndElement:
+			depth--
+		}
+		if depth < 0 {
+			// The end of the property element itself.
 			break
 		}
 		if err = e.EncodeToken(t); err != nil {
